@@ -62,8 +62,8 @@ Section HKProofs.
   Notation elookup := (elookup X Y eqbX eqbY).
   Notation uf_find := (uf_find X Y eqbX eqbY).
   Notation uf_union := (uf_union X Y eqbX eqbY tie).
-  Notation hk_symbol := (hk_symbol X Y eqbX eqbY stepX stepY tie).
-  Notation hk_loop := (hk_loop X Y eqbX eqbY stepX stepY finX finY tie syms).
+  Notation hk_symbol := (hk_symbol X Y eqbX eqbY stepX stepY uf_find uf_union).
+  Notation hk_loop := (hk_loop X Y eqbX eqbY stepX stepY finX finY uf_find uf_union syms).
 
   Lemma eqbE_ok : eqb_ok eqbE.
   Proof.
@@ -536,13 +536,248 @@ Section HKProofs.
     Qed.
   End Fuel.
 
+  (* ---------- the parent forest of networkx returns the same roots as the flat structure ---------- *)
+  Notation fuf_find := (fuf_find X Y eqbX eqbY).
+  Notation fuf_union := (fuf_union X Y eqbX eqbY tie).
+  Notation f_walk := (f_walk X Y eqbX eqbY).
+  Notation par := (uf_parents X Y).
+  Notation wts := (uf_weights X Y).
+  Notation hkf_symbol := (HK.hk_symbol X Y eqbX eqbY stepX stepY fuf_find fuf_union).
+  Notation hkf_loop := (HK.hk_loop X Y eqbX eqbY stepX stepY finX finY fuf_find fuf_union syms).
+
+  Lemma flat_merge_spec u root other w' : uf_ok u ->
+    elookup root (par u) = Some root -> elookup other (par u) = Some other -> root <> other ->
+    let u' := mkuf X Y (map (fun kv => (fst kv, if eqbE (snd kv) other then root else snd kv)) (par u)) w' in
+    uf_ok u' /\ forall x, fnd u' x = if eqbE (fnd u x) other then root else fnd u x.
+  Proof.
+    intros Hok Hkr Hko Hne u'. split.
+    - intros x r. unfold u'. simpl. rewrite !(elookup_map (fun v => if eqbE v other then root else v)).
+      destruct (elookup x (par u)) as [r0|] eqn:Ex; [|discriminate].
+      intro H. inversion H; subst r. clear H. pose proof (Hok _ _ Ex) as Hr0.
+      destruct (eqbE r0 other) eqn:E0.
+      + rewrite Hkr. rewrite (eqbE_neq _ _ Hne). reflexivity.
+      + rewrite Hr0. rewrite E0. reflexivity.
+    - intro x. unfold fnd at 1. unfold u'. simpl. rewrite (elookup_map (fun v => if eqbE v other then root else v)).
+      unfold fnd. destruct (elookup x (par u)) as [r0|] eqn:Ex; [reflexivity|].
+      destruct (eqbE x other) eqn:E0; [|reflexivity].
+      apply eqbE_ok in E0. subst x. congruence.
+  Qed.
+
+  (* h: a height that strictly grows along parent pointers and is bounded by the number of entries *)
+  Definition wf_forest (p : list (elem * elem)) (h : elem -> nat) : Prop :=
+    (forall x y, elookup x p = Some y -> y <> x -> h x < h y) /\
+    (forall x y, elookup x p = Some y -> elookup y p <> None) /\
+    (forall x, h x <= length p).
+
+  Definition sim (uF u : uf) : Prop :=
+    uf_ok u /\
+    (exists h, wf_forest (par uF) h) /\
+    (forall x, elookup x (par uF) = None <-> elookup x (par u) = None) /\
+    (forall x y, elookup x (par uF) = Some y -> fnd u y = fnd u x) /\
+    (forall x, elookup x (par uF) = Some x -> fnd u x = x) /\
+    wts uF = wts u.
+
+  (* the walk reaches a root of the forest before its fuel ends; everything on the path is a keyed
+     non-root of the same flat class, strictly lower than the root *)
+  Lemma walk_spec p h u : wf_forest p h ->
+    (forall x y, elookup x p = Some y -> fnd u y = fnd u x) ->
+    forall n x path, length p - h x < n -> elookup x p <> None ->
+    exists r anc, f_walk n p x path = (r, anc ++ path) /\ elookup r p = Some r /\ fnd u r = fnd u x /\
+      h x <= h r /\
+      forall z, In z anc -> elookup z p <> None /\ elookup z p <> Some z /\ fnd u z = fnd u x /\ h z < h r.
+  Proof.
+    intros (W1 & W2 & W3) Hp. induction n as [|n IH]; intros x path Hn Hk; [lia|].
+    simpl. destruct (elookup x p) as [y|] eqn:E; [|contradiction].
+    destruct (eqbE y x) eqn:Eq.
+    - apply eqbE_ok in Eq. subst y. exists x, []. split; [reflexivity|]. split; [exact E|]. split; [reflexivity|].
+      split; [lia|]. intros z [].
+    - apply (eqb_ok_false _ eqbE_ok) in Eq. pose proof (W1 _ _ E Eq) as Hlt. pose proof (W3 y) as Hy.
+      destruct (IH y (x :: path)) as [r [anc (Hw & Hr & Hf & Hh & Ha)]]; [lia|apply (W2 _ _ E)|].
+      exists r, (anc ++ [x]). rewrite <- app_assoc. simpl. split; [exact Hw|]. split; [exact Hr|].
+      split; [rewrite Hf; apply Hp; exact E|]. split; [lia|].
+      intros z Hz. apply in_app_or in Hz. destruct Hz as [Hz|[<-|[]]].
+      + destruct (Ha z Hz) as (A1 & A2 & A3 & A4). repeat split; try assumption. rewrite A3. apply Hp. exact E.
+      + repeat split; [congruence|intro H; rewrite E in H; inversion H; congruence|lia].
+  Qed.
+
+  Lemma elookup_compress anc (r : elem) p z :
+    elookup z (map (fun a : elem => (a, r)) anc ++ p) = if existsb (eqbE z) anc then Some r else elookup z p.
+  Proof.
+    induction anc as [|a anc IH]; simpl; [reflexivity|]. destruct (eqbE z a); simpl; [reflexivity|exact IH].
+  Qed.
+
+  Lemma existsb_eqbE z (l : list elem) : existsb (eqbE z) l = true <-> In z l.
+  Proof.
+    rewrite existsb_exists. split.
+    - intros [y [Hy E]]. apply eqbE_ok in E. subst. exact Hy.
+    - intro H. exists z. split; [exact H|apply eqbE_refl].
+  Qed.
+
+  Lemma sim_find uF u x : sim uF u ->
+    fst (fuf_find uF x) = fst (uf_find u x) /\
+    sim (snd (fuf_find uF x)) (snd (uf_find u x)) /\
+    elookup (fst (fuf_find uF x)) (par (snd (fuf_find uF x))) = Some (fst (fuf_find uF x)) /\
+    (forall z, elookup z (par uF) = Some z -> elookup z (par (snd (fuf_find uF x))) = Some z).
+  Proof.
+    intros (Hok & [h Hwf] & Hk & Hp & Hr & Hw).
+    pose proof (find_ok u x Hok) as Fok. pose proof (find_fnd u x) as Ffnd. pose proof (find_fst u x) as Ffst.
+    unfold HK.fuf_find. destruct (elookup x (par uF)) as [y0|] eqn:E.
+    - (* known object: walk and compress *)
+      assert (Ek : elookup x (par u) <> None) by (rewrite <- Hk; congruence).
+      assert (Hu : uf_find u x = (fnd u x, u)).
+      { unfold HK.uf_find, fnd. destruct (elookup x (par u)); [reflexivity|contradiction]. }
+      destruct (walk_spec (par uF) h u Hwf Hp (S (length (par uF))) x []) as [r [anc (Hwk & Hrr & Hf & _ & Ha)]];
+        [lia|congruence|].
+      rewrite app_nil_r in Hwk. rewrite Hwk. rewrite Hu in *. simpl fst in *. simpl snd in *.
+      assert (Hroot : r = fnd u x) by (rewrite <- Hf; symmetry; apply Hr; exact Hrr).
+      destruct Hwf as (W1 & W2 & W3). unfold sim. cbn [uf_parents uf_weights].
+      split; [exact Hroot|]. split; [|split].
+      + split; [exact Hok|]. split; [|split; [|split; [|split]]].
+        * exists h. split; [|split].
+          -- intros z y. rewrite elookup_compress. destruct (existsb (eqbE z) anc) eqn:Ez.
+             ++ apply existsb_eqbE in Ez. intros H _. inversion H; subst y. apply (Ha z Ez).
+             ++ apply W1.
+          -- intros z y. rewrite !elookup_compress. intro H. destruct (existsb (eqbE y) anc); [discriminate|].
+             destruct (existsb (eqbE z) anc); [inversion H; subst y; congruence|apply (W2 _ _ H)].
+          -- intro z. simpl. rewrite app_length. pose proof (W3 z). lia.
+        * intro z. simpl. rewrite elookup_compress. destruct (existsb (eqbE z) anc) eqn:Ez; [|apply Hk].
+          apply existsb_eqbE in Ez. destruct (Ha z Ez) as (A1 & _). split; [discriminate|].
+          intro H. apply Hk in H. contradiction.
+        * intros z y. simpl. rewrite elookup_compress. destruct (existsb (eqbE z) anc) eqn:Ez; [|apply Hp].
+          apply existsb_eqbE in Ez. destruct (Ha z Ez) as (_ & _ & A3 & _). intro H. inversion H; subst y.
+          rewrite A3. exact Hf.
+        * intros z. simpl. rewrite elookup_compress. destruct (existsb (eqbE z) anc) eqn:Ez; [|apply Hr].
+          apply existsb_eqbE in Ez. destruct (Ha z Ez) as (_ & _ & _ & A4). intro H. inversion H; subst z. lia.
+        * simpl. exact Hw.
+      + simpl. rewrite elookup_compress. destruct (existsb (eqbE r) anc); [reflexivity|exact Hrr].
+      + intros z Hz. simpl. rewrite elookup_compress. destruct (existsb (eqbE z) anc) eqn:Ez; [|exact Hz].
+        apply existsb_eqbE in Ez. destruct (Ha z Ez) as (_ & A2 & _). contradiction.
+    - (* unknown object: a new singleton on both sides *)
+      assert (Ek : elookup x (par u) = None) by (apply Hk; exact E).
+      assert (Hu : uf_find u x = (x, mkuf X Y ((x, x) :: par u) ((x, 1) :: wts u))).
+      { unfold HK.uf_find. rewrite Ek. reflexivity. }
+      rewrite Hu in *. simpl fst in *. simpl snd in *.
+      destruct Hwf as (W1 & W2 & W3). unfold sim. cbn [uf_parents uf_weights].
+      split; [reflexivity|]. split; [|split].
+      + split; [exact Fok|]. split; [|split; [|split; [|split]]].
+        * exists h. split; [|split].
+          -- intros z y. simpl. destruct (eqbE z x) eqn:Ez.
+             ++ apply eqbE_ok in Ez. subst z. intros H Hne. inversion H; subst y. congruence.
+             ++ apply W1.
+          -- intros z y. simpl. intro H. destruct (eqbE z x) eqn:Ez.
+             ++ inversion H; subst y. rewrite eqbE_refl. discriminate.
+             ++ destruct (eqbE y x); [discriminate|apply (W2 _ _ H)].
+          -- intro z. simpl. pose proof (W3 z). lia.
+        * intro z. simpl. destruct (eqbE z x); [split; discriminate|apply Hk].
+        * intros z y. simpl. rewrite !Ffnd. destruct (eqbE z x) eqn:Ez; [|apply Hp].
+          apply eqbE_ok in Ez. subst z. intro H. inversion H. reflexivity.
+        * intros z. simpl. rewrite Ffnd. destruct (eqbE z x) eqn:Ez; [|apply Hr].
+          apply eqbE_ok in Ez. subst z. intros _. unfold fnd. rewrite Ek. reflexivity.
+        * simpl. rewrite Hw. reflexivity.
+      + simpl. rewrite eqbE_refl. reflexivity.
+      + intros z Hz. simpl. destruct (eqbE z x) eqn:Ez; [|exact Hz]. apply eqbE_ok in Ez. subst z. reflexivity.
+  Qed.
+
+  Lemma sim_union uF u a b : sim uF u -> sim (fuf_union uF a b) (uf_union u a b).
+  Proof.
+    intro Hs. unfold HK.fuf_union, HK.uf_union.
+    destruct (sim_find uF u a Hs) as (R1 & S1 & K1 & _).
+    destruct (fuf_find uF a) as [raF u1F]. destruct (uf_find u a) as [ra u1] eqn:E1.
+    simpl fst in *. simpl snd in *. subst raF.
+    destruct (sim_find u1F u1 b S1) as (R2 & S2 & K2 & P2).
+    destruct (fuf_find u1F b) as [rbF u2F]. destruct (uf_find u1 b) as [rb u2] eqn:E2.
+    simpl fst in *. simpl snd in *. subst rbF.
+    specialize (P2 ra K1). clear K1.
+    destruct (eqbE ra rb) eqn:Eab; [exact S2|].
+    assert (Hne : ra <> rb) by (apply (eqb_ok_false _ eqbE_ok); exact Eab).
+    destruct S2 as (Hok & [h (W1 & W2 & W3)] & Hk & Hp & Hr & Hw).
+    assert (Fa : fnd u2 ra = ra) by (apply Hr; exact P2).
+    assert (Fb : fnd u2 rb = rb) by (apply Hr; exact K2).
+    assert (Hka : elookup ra (par u2) = Some ra).
+    { destruct (elookup ra (par u2)) as [r0|] eqn:E; [|apply Hk in E; congruence].
+      unfold fnd in Fa. rewrite E in Fa. congruence. }
+    assert (Hkb : elookup rb (par u2) = Some rb).
+    { destruct (elookup rb (par u2)) as [r0|] eqn:E; [|apply Hk in E; congruence].
+      unfold fnd in Fb. rewrite E in Fb. congruence. }
+    unfold uf_weight. rewrite Hw.
+    set (wa := match elookup ra (wts u2) with Some w => w | None => 0 end).
+    set (wb := match elookup rb (wts u2) with Some w => w | None => 0 end).
+    set (first := if Nat.ltb wb wa then true else if Nat.ltb wa wb then false else tie ra rb).
+    set (root := if first then ra else rb). set (other := if first then rb else ra).
+    assert (Hro : (root = ra /\ other = rb) \/ (root = rb /\ other = ra)).
+    { unfold root, other. destruct first; [left|right]; split; reflexivity. }
+    assert (Hne' : root <> other) by (destruct Hro as [[-> ->]|[-> ->]]; congruence).
+    assert (Hkr : elookup root (par u2) = Some root) by (destruct Hro as [[-> _]|[-> _]]; assumption).
+    assert (Hko : elookup other (par u2) = Some other) by (destruct Hro as [[_ ->]|[_ ->]]; assumption).
+    assert (FRr : elookup root (par u2F) = Some root) by (destruct Hro as [[-> _]|[-> _]]; assumption).
+    assert (Fr : fnd u2 root = root) by (destruct Hro as [[-> _]|[-> _]]; assumption).
+    assert (Fo : fnd u2 other = other) by (destruct Hro as [[_ ->]|[_ ->]]; assumption).
+    destruct (flat_merge_spec u2 root other ((root, wa + wb) :: wts u2) Hok Hkr Hko Hne') as [Hok' Hf'].
+    cbv zeta in Hok', Hf'.
+    split; [exact Hok'|]. split; [|split; [|split; [|split]]].
+    - exists (fun z => if eqbE z root then Nat.max (h root) (S (h other)) else h z). split; [|split].
+      + intros z y. simpl. destruct (eqbE z other) eqn:Ez.
+        * apply eqbE_ok in Ez. subst z. intros H _. inversion H; subst y.
+          rewrite (eqbE_neq other root), eqbE_refl; [lia|congruence].
+        * intros H Hyz. destruct (eqbE z root) eqn:Ezr.
+          -- apply eqbE_ok in Ezr. subst z. congruence.
+          -- pose proof (W1 _ _ H Hyz). destruct (eqbE y root) eqn:Eyr; [apply eqbE_ok in Eyr; subst y|]; lia.
+      + intros z y. simpl. intro H. destruct (eqbE y other) eqn:Ey; [discriminate|].
+        destruct (eqbE z other) eqn:Ez; [inversion H; subst y; congruence|apply (W2 _ _ H)].
+      + intro z. simpl. pose proof (W3 z). pose proof (W3 root). pose proof (W3 other). destruct (eqbE z root); lia.
+    - intro z. simpl. rewrite (elookup_map (fun v => if eqbE v other then root else v)).
+      destruct (eqbE z other) eqn:Ez.
+      + apply eqbE_ok in Ez. subst z. rewrite Hko. split; discriminate.
+      + rewrite (Hk z). destruct (elookup z (par u2)); split; congruence.
+    - intros z y. simpl. rewrite !Hf'. destruct (eqbE z other) eqn:Ez.
+      + apply eqbE_ok in Ez. subst z. intro H. inversion H; subst y. rewrite Fr, Fo, eqbE_refl, (eqbE_neq _ _ Hne'). reflexivity.
+      + intro H. rewrite (Hp _ _ H). reflexivity.
+    - intros z. simpl. rewrite Hf'. destruct (eqbE z other) eqn:Ez.
+      + apply eqbE_ok in Ez. subst z. intro H. inversion H. congruence.
+      + intro H. rewrite (Hr _ H). rewrite Ez. reflexivity.
+    - simpl. reflexivity.
+  Qed.
+
+  Lemma sim_symbol qa qb stF st a : sim (fst stF) (fst st) -> snd stF = snd st ->
+    sim (fst (hkf_symbol qa qb stF a)) (fst (hk_symbol qa qb st a)) /\
+    snd (hkf_symbol qa qb stF a) = snd (hk_symbol qa qb st a).
+  Proof.
+    destruct stF as [uF sF], st as [u s]. simpl fst. simpl snd. intros Hs ->. unfold HK.hk_symbol. simpl fst. simpl snd.
+    destruct (sim_find uF u (estep qa a) Hs) as (R1 & S1 & _).
+    destruct (fuf_find uF (estep qa a)) as [r1F u1F]. destruct (uf_find u (estep qa a)) as [r1 u1].
+    simpl fst in *. simpl snd in *. subst r1F.
+    destruct (sim_find u1F u1 (estep qb a) S1) as (R2 & S2 & _).
+    destruct (fuf_find u1F (estep qb a)) as [r2F u2F]. destruct (uf_find u1 (estep qb a)) as [r2 u2].
+    simpl fst in *. simpl snd in *. subst r2F.
+    destruct (eqbE r1 r2); simpl; [split; [exact S2|reflexivity]|].
+    split; [apply sim_union; exact S2|reflexivity].
+  Qed.
+
+  Lemma sim_fold qa qb todo : forall stF st, sim (fst stF) (fst st) -> snd stF = snd st ->
+    sim (fst (fold_left (hkf_symbol qa qb) todo stF)) (fst (fold_left (hk_symbol qa qb) todo st)) /\
+    snd (fold_left (hkf_symbol qa qb) todo stF) = snd (fold_left (hk_symbol qa qb) todo st).
+  Proof.
+    induction todo as [|a todo IH]; intros stF st H1 H2; simpl; [split; assumption|].
+    destruct (sim_symbol qa qb stF st a H1 H2) as [H1' H2']. apply IH; assumption.
+  Qed.
+
+  Lemma sim_loop fuel : forall uF u stack, sim uF u -> hkf_loop fuel (uF, stack) = hk_loop fuel (u, stack).
+  Proof.
+    induction fuel as [|f IH]; intros uF u [|[qa qb] rest] Hs; simpl; try reflexivity.
+    destruct (xorb (efinal qa) (efinal qb)); [reflexivity|].
+    destruct (sim_fold qa qb syms (uF, rest) (u, rest) Hs eq_refl) as [H1 H2].
+    destruct (fold_left (hkf_symbol qa qb) syms (uF, rest)) as [uF' sF'].
+    destruct (fold_left (hk_symbol qa qb) syms (u, rest)) as [u' s']. simpl in H1, H2. subst sF'.
+    apply IH. exact H1.
+  Qed.
+
   (* ---------- the whole run ---------- *)
   Variable x0 : X.
   Variable y0 : Y.
   Notation ea := (inl x0 : elem).
   Notation eb := (inr y0 : elem).
   Notation unew := (uf_new X Y [ea; eb]).
-  Notation hk_run := (hk_run X Y eqbX eqbY stepX stepY finX finY tie syms).
+  Notation hk_run := (hk_run_flat X Y eqbX eqbY stepX stepY finX finY tie syms).
 
   Lemma unew_fnd x : fnd unew x = x.
   Proof.
@@ -578,7 +813,7 @@ Section HKProofs.
   (* soundness and completeness of the answer, for every fuel *)
   Theorem hk_run_true fuel : hk_run fuel x0 y0 = Ok true -> same_language.
   Proof.
-    unfold HK.hk_run. intro H. apply leq_ab. destruct start_facts as [Hok Hm].
+    unfold hk_run_flat, HK.hk_run. intro H. apply leq_ab. destruct start_facts as [Hok Hm].
     apply (loop_true fuel _ _ Hok) with (x := ea) (y := eb) in H; [exact H| |].
     - intros x y Hxy.
       destruct (merged_inv _ _ _ _ Hm x y Hxy) as [E|[[E1 E2]|[E1 E2]]]; rewrite !unew_fnd in *.
@@ -590,7 +825,7 @@ Section HKProofs.
 
   Theorem hk_run_not_false fuel : same_language -> hk_run fuel x0 y0 <> Ok false.
   Proof.
-    intro HL. apply leq_ab in HL. unfold HK.hk_run. destruct start_facts as [Hok Hm].
+    intro HL. apply leq_ab in HL. unfold hk_run_flat, HK.hk_run. destruct start_facts as [Hok Hm].
     apply loop_not_false; [exact Hok|]. split.
     - intros x y Hxy.
       destruct (merged_inv _ _ _ _ Hm x y Hxy) as [E|[[E1 E2]|[E1 E2]]]; rewrite !unew_fnd in *.
@@ -624,7 +859,7 @@ Section HKProofs.
     assert (HU : length U = length UX + length UY) by (unfold U; rewrite app_length, !map_length; reflexivity).
     destruct start_facts as [Hok Hm].
     assert (Hnf : hk_run fuel x0 y0 <> Err Fuel).
-    { unfold HK.hk_run. apply (loop_fuel U Uc); [exact Hok| |].
+    { unfold hk_run_flat, HK.hk_run. apply (loop_fuel U Uc); [exact Hok| |].
       - split.
         + intros x Hx. destruct (merged_range _ _ _ _ Hm x) as [E|[E|E]]; rewrite E; [rewrite unew_fnd|..]; assumption.
         + intros p q [G|[]]. inversion G; subst. split; assumption.
@@ -633,6 +868,26 @@ Section HKProofs.
     destruct (hk_loop_cases fuel (uf_union unew ea eb, [(ea, eb)])) as [H|[H|H]];
       [exists true; exact H|exists false; exact H|exfalso; apply Hnf; exact H].
   Qed.
+  (* the networkx forest (walks, path compression, single re-pointing on union) and the flat structure
+     give the same run: every lookup returns the same root, so the same pairs are pushed *)
+  Lemma sim_new : sim unew unew.
+  Proof.
+    split; [exact unew_ok|]. split; [|split; [|split; [|split]]].
+    - exists (fun _ => 0). split; [|split].
+      + intros x y H Hne. exfalso. apply Hne. pose proof (unew_fnd x) as F. unfold fnd in F. rewrite H in F. exact F.
+      + intros x y H. assert (y = x) by (pose proof (unew_fnd x) as F; unfold fnd in F; rewrite H in F; exact F).
+        subst y. congruence.
+      + intro x. lia.
+    - tauto.
+    - intros x y H. assert (y = x) by (pose proof (unew_fnd x) as F; unfold fnd in F; rewrite H in F; exact F).
+      subst y. reflexivity.
+    - intros x _. apply unew_fnd.
+    - reflexivity.
+  Qed.
+
+  Theorem hkf_run_eq fuel :
+    hk_run_forest X Y eqbX eqbY stepX stepY finX finY tie syms fuel x0 y0 = hk_run fuel x0 y0.
+  Proof. unfold hk_run_forest, hk_run_flat, HK.hk_run. apply sim_loop. apply sim_union. exact sim_new. Qed.
 End HKProofs.
 
 (* ---------- DFA.__eq__ ---------- *)
@@ -653,6 +908,7 @@ Section DFAHK.
     exists b, hk_eq_gen tie syms A B = Ok b /\ (b = true <-> L_dfa A =L L_dfa B).
   Proof.
     intro Hsy. unfold hk_eq_gen, guard_syms. rewrite Hsy.
+    rewrite (hkf_run_eq _ _ _ _ (eqb_opt_ok _ eqb_nat_ok) (eqb_opt_ok _ eqb_nat_ok)).
     destruct (hk_run_fuel _ _ _ _ (eqb_opt_ok _ eqb_nat_ok) (eqb_opt_ok _ eqb_nat_ok)
                 (ostep A) (ostep B) (ofinal A) (ofinal B) tie syms (Some (d_init A)) (Some (d_init B))
                 (ostates A) (ostates B) (hk_fuel A B)) as [b Hb].
@@ -730,7 +986,8 @@ Section NFAHK.
   (* for every fuel: when the model returns, the boolean is language equality *)
   Theorem nfa_hk_sound b : nfa_hk_eq_gen tie syms A B = Ok b -> (b = true <-> L_nfa A =L L_nfa B).
   Proof.
-    unfold nfa_hk_eq_gen. destruct (nsame_syms A B) eqn:Hsy; [|discriminate]. intro Hb.
+    unfold nfa_hk_eq_gen. destruct (nsame_syms A B) eqn:Hsy; [|discriminate].
+    rewrite (hkf_run_eq _ _ _ _ (eqb_list_ok _ eqb_nat_ok) (eqb_list_ok _ eqb_nat_ok)). intro Hb.
     rewrite (hk_run_sound _ _ _ _ (eqb_list_ok _ eqb_nat_ok) (eqb_list_ok _ eqb_nat_ok) _ _ _ _ _ _ _ _ _ _ Hb).
     unfold same_language. split.
     - intros H w. rewrite <- (nfa_acc_spec A HA), <- (nfa_acc_spec B HB).
@@ -749,6 +1006,7 @@ Section NFAHK.
     exists b, nfa_hk_eq_gen tie syms A B = Ok b.
   Proof.
     intros Hsy Hsz. unfold nfa_hk_eq_gen. rewrite Hsy.
+    rewrite (hkf_run_eq _ _ _ _ (eqb_list_ok _ eqb_nat_ok) (eqb_list_ok _ eqb_nat_ok)).
     apply (hk_run_fuel _ _ _ _ (eqb_list_ok _ eqb_nat_ok) (eqb_list_ok _ eqb_nat_ok) _ _ _ _ _ _ _ _
              (nuniverse A) (nuniverse B)).
     - apply nuniverse_closed; exact HA.
